@@ -133,6 +133,9 @@ func progWithOutputSchema() *Program {
 var c11Shapes = []string{
 	"null", `""`, "text", "17", "true", "{}", "? [a]\n: b\n", "{k: 1, k: 2}", "[x, y]", "[[x], []]", "{p: &anc v, q: *anc}", "{<<: {m: 1}, n: 2}",
 	"!expr $.input.n", "!expr {a: 1}", "!expr [a]", "!expr \"\"", "!expr \"$.\"",
+	"!expr $", "!expr $.steps", "!expr $.steps.a", "!expr $.input", "!expr $.nosuch", "!expr \"$[0]\"", "!expr \"$.steps[0]\"", "!expr \"$.steps.a[0]\"",
+	"!expr \"1 +\"", "!expr \"f(\"", "!expr \"$.steps.a.outputs.success.v.x\"", "!expr \"$.steps.a.outputs.success[0]\"", "!expr \"$.input.n.x\"", "!expr \"nosuchfn($.input.n)\"",
+	"!wait-optional $", "!soft-optional $.steps", "!ordisabled $", "!ordisabled $.steps.a",
 	"!oneof x", "!oneof {discriminator: d, one_of: {a: !expr $.input}}", "!oneof {discriminator: d, one_of: [a, b]}", "!oneof {discriminator: [d], one_of: {}}", "!oneof {one_of: {}}", "!oneof []",
 	"!ordisabled $.steps.a.outputs", "!ordisabled x", "!ordisabled {a: 1}", "!ordisabled [a]",
 	"!wait-optional $.steps.a.outputs.success.v", "!wait-optional {a: 1}", "!soft-optional [x]", "!soft-optional \"\"",
@@ -363,11 +366,25 @@ func c11RecursiveCases() []*c11Case {
 	loop := func(file string) string {
 		return "version: v0.2.0\ninput:\n" + indent(subInputSchema, 2) + "steps:\n  l:\n    kind: foreach\n    workflow: " + file + "\n    items:\n      - v: !expr $.input.v\noutputs:\n  success:\n    d: !expr $.steps.l.outputs.success.data\n"
 	}
-	return []*c11Case{
+	// YAML anchors whose content refers to the anchor itself, and a loop step whose file name equals
+	// the key under which the command line registers the main workflow
+	valid := progChain(2).YAML()
+	selfAlias := []string{"&a [*a]\n", "&a {k: *a}\n", "version: v0.2.0\ninput: &in\n  root: *in\n", strings.Replace(valid, "outputs:\n", "outputs: &o\n  again: *o\n", 1),
+		strings.Replace(valid, "steps:\n", "steps: &s\n  me: *s\n", 1), "- &x [*x, *x]\n"}
+	var alias []*c11Case
+	for i, t := range selfAlias {
+		alias = append(alias, &c11Case{name: fmt.Sprintf("self-alias-workflow-%d", i), main: "w.yaml", files: map[string][]byte{"w.yaml": []byte(t)}})
+		alias = append(alias, &c11Case{name: fmt.Sprintf("self-alias-input-%d", i), main: "w.yaml", input: []byte(t), files: map[string][]byte{"w.yaml": []byte(valid)}})
+		alias = append(alias, &c11Case{name: fmt.Sprintf("self-alias-sub-%d", i), main: "w.yaml", files: map[string][]byte{"w.yaml": []byte(progForeach(subProg(), 1).YAML()), "sub.yaml": []byte(t)}})
+	}
+	alias = append(alias,
+		&c11Case{name: "loop-file-named-workflow", main: "w.yaml", files: map[string][]byte{"w.yaml": []byte(loop("workflow")), "workflow": []byte(subProg().YAML())}},
+		&c11Case{name: "loop-file-named-workflow-missing", main: "w.yaml", files: map[string][]byte{"w.yaml": []byte(loop("workflow"))}})
+	return append(alias, []*c11Case{
 		{name: "self-reference", main: "w.yaml", files: map[string][]byte{"w.yaml": []byte(loop("w.yaml"))}},
 		{name: "two-cycle", main: "w.yaml", files: map[string][]byte{"w.yaml": []byte(loop("a.yaml")), "a.yaml": []byte(loop("w.yaml"))}},
 		{name: "three-cycle", main: "w.yaml", files: map[string][]byte{"w.yaml": []byte(loop("a.yaml")), "a.yaml": []byte(loop("b.yaml")), "b.yaml": []byte(loop("a.yaml"))}},
-	}
+	}...)
 }
 
 func c11ChildUnit() *Unit {
@@ -400,14 +417,14 @@ func c11ChildUnit() *Unit {
 				res.Violations = append(res.Violations, vrt.FoundViolation{Violation: vrt.Violation{Key: "recursive-references/does-not-return/" + c.name, Detail: "parsing " + c.name + " did not return within 90 s"}})
 			case werr != nil:
 				res.Violations = append(res.Violations, vrt.FoundViolation{Violation: vrt.Violation{Key: "recursive-references/process-dies/" + c.name,
-					Detail: fmt.Sprintf("parsing a workflow whose loop steps reference each other (%s) kills the process: %s", c.name, short(firstLines(out, 3), 400))}})
+					Detail: fmt.Sprintf("parsing a self-referential structure (%s) kills the process: %s", c.name, short(firstLines(out, 3), 400))}})
 			default:
 				res.Outcomes++
 			}
 		}
 		res.Signatures = res.Execs
 		res.Nontrivial = res.Execs
-		res.Sample = map[string]any{"cases": []string{"self-reference", "two-cycle", "three-cycle"}}
+		res.Sample = map[string]any{"cases": len(c11RecursiveCases()), "kinds": []string{"self-referential YAML anchors as workflow / input / sub-workflow", "loop file named like the main workflow key", "self-reference", "two-cycle", "three-cycle"}}
 		return res
 	}}
 }
